@@ -418,7 +418,8 @@ func (self *BinaryConv) handleUnsets(b *thrift.RequiresBitmap, desc *thrift.Stru
 		} else {
 			*out = json.EncodeArrayComma(*out)
 		}
-		*out = json.EncodeString(*out, field.Name())
+		// NOTICE: use field.Alias() like for the fields present in the message
+		*out = json.EncodeString(*out, field.Alias())
 		*out = json.EncodeObjectColon(*out)
 		return writeDefaultOrEmpty(field, out)
 	})
